@@ -3,7 +3,7 @@ META = {
     "level": "model_checking",
     "text": "The resolution rules of config.ReadConfig are a finite decision function: the TLA+ module enumerates the whole input space "
             "(network flags x where peers / Electrum URL / each contract address were set: unset, file or flag), TLC checks the "
-            "property's invariants on the specified Resolve for all 8 contracts (472k states), and every generated combination is "
+            "property's invariants on the specified Resolve for all 8 contracts (exhaustive), and every generated combination is "
             "executed through the real ReadConfig with a real TOML file and pflag set and compared field by field.",
     "note": "Trusted: viper/pflag (file and flag layering). Generation varies 4 of the 8 contract addresses (the other 4 stay unset and "
             "are checked against defaults); the environment-variable source is not exercised.",
@@ -14,12 +14,12 @@ SPEC = "specs/Config"
 
 
 def run(ctx):
-    r = ctx.tlc(SPEC, "Config", cfg="MC_Config", coverage=True, label="MC_Config", timeout=900)
+    r = ctx.tlc(SPEC, "Config", cfg=ctx.pick("MC_Config", "MC_Config_thorough"), coverage=True, label="MC_Config", timeout=900)
     ctx.require_coverage(r, ["Read"], "MC_Config")
     g = ctx.tlc(SPEC, "Gen_Config", cfg="Gen_Config", workers=1, label="Gen_Config", dump_trace=False, timeout=900)
     cases = ctx.read_emitted(g, "cases.ndjson")
-    if len(cases) != 2916:
-        ctx.broken("expected 2916 generated cases, got %d" % len(cases))
+    if len(cases) != 12288:
+        ctx.broken("expected 12288 generated cases, got %d" % len(cases))
     if not ctx.thorough:
         import random
         cases = random.Random(ctx.seed).sample(cases, 700)
@@ -27,7 +27,7 @@ def run(ctx):
     ctx.absorb(go, require_evals=len(cases))
     return ctx.finish(
         level="model_checking",
-        rule="all 2916 combinations (quick: seeded sample of 700) of {testnet, developer} flags x {unset, file, flag} for peers, "
+        rule="all 12288 combinations (quick: seeded sample of 700) of {testnet, developer} flags x {unset, file, flag (+ single-entry peers, + malformed contract address)} for peers, "
              "Electrum URL and 4 contract addresses; non-trivial = at least one value left unset (a default must be chosen)",
         assumptions=["viper/pflag layering is trusted", "embedded default lists are read from config/_peers and config/_electrum_urls"],
         exhaustive=ctx.thorough)
